@@ -30,7 +30,7 @@ def setup(ex):
         c = [n for n in mir.find(f, pat, unique=False) if arg0 is None or arg0 in f[n].locals.get('_1', '')]
         if len(c) != 1: raise Unsupported(f'cannot locate {pat}: {c}')
         return c[0]
-    for m in ('deserialize_struct', 'deserialize_map', 'deserialize_identifier', 'deserialize_string', 'deserialize_str', 'deserialize_seq', 'deserialize_option') + \
+    for m in ('deserialize_struct', 'deserialize_map', 'deserialize_identifier', 'deserialize_string', 'deserialize_str', 'deserialize_seq', 'deserialize_option', 'deserialize_ignored_any') + \
             tuple('deserialize_' + t for t in SCALARS):
         Env.F[m] = one(r'from_map::<impl at [^>]*>::' + m + '$', 'MapDeserializer')
     Env.F['next_key_seed'] = one(r'from_map::<impl at [^>]*>::next_key_seed$')
@@ -41,13 +41,15 @@ def setup(ex):
 def deserialize_as(ex, ty, de):
     """T::deserialize(de) as serde-derive / serde's std impls do it"""
     if ty.kind == 'struct':
-        return ex.call_fn(Env.F['deserialize_struct'], [de, 'Struct', Opaque('field-names'), Opaque('visitor', ty)])
+        return ex.call_fn(Env.F['deserialize_struct'], [de, 'Struct', Ref(Cell(PVec([Cell(n_) for n_, _ in (ty.arg or [])]))), Opaque('visitor', ty)])
     if ty.kind == 'string':
         return ex.call_fn(Env.F['deserialize_string'], [de, Opaque('visitor', ty)])
     if ty.kind == 'seq':
         return ex.call_fn(Env.F['deserialize_seq'], [de, Opaque('visitor', ty)])
     if ty.kind == 'option':
         return ex.call_fn(Env.F['deserialize_option'], [de, Opaque('visitor', ty)])
+    if ty.kind == 'ignored':
+        return ex.call_fn(Env.F['deserialize_ignored_any'], [de, Opaque('visitor', ty)])
     if ty.kind in SCALARS:
         return ex.call_fn(Env.F['deserialize_' + ty.kind], [de, Opaque('visitor', ty)])
     raise Unsupported(f'deserialize model for {ty}')
@@ -80,7 +82,11 @@ def m_visit(ex, args, callee):
             name = dv(ex.payload(o))
             if not isinstance(name, str): raise Unsupported(f'field name {name!r}')
             if name in got: return ex.err(ex.mk_struct('MapError', **{'0': 'duplicate field'}))
-            if name not in fields: return ex.err(ex.mk_struct('MapError', **{'0': 'unknown field'}))
+            if name not in fields:
+                # serde derive without deny_unknown_fields: `_ => { map.next_value::<IgnoredAny>()?; }`
+                v = ex.call_fn(Env.F['next_value_seed'], [Ref(acc), Opaque('seed', Ty('ignored'))])
+                if v.discr == 1: return v
+                continue
             v = ex.call_fn(Env.F['next_value_seed'], [Ref(acc), Opaque('seed', fields[name])])
             if v.discr == 1: return v
             got[name] = ex.payload(v)
@@ -104,6 +110,7 @@ def m_visit(ex, args, callee):
         inner = deserialize_as(ex, ty.arg, args[1])
         return inner if inner.discr == 1 else ex.ok(('some', ex.payload(inner)))
     if kind in ('str', 'string', 'borrowed_str'):
+        if ty is not None and ty.kind == 'ignored': return ex.ok(Opaque('ignored-any'))
         return ex.ok(dv(args[1]))
     return ex.ok(Opaque('visited', (kind, args[1])))
 
